@@ -147,6 +147,8 @@ def stream(draw, max_len=40):
 RENAMES = {
     1: {"B": "M [tty0]", "AB": "M tty0", "P": "P[1]", "PQ": "P1", "R": "R*", "x": "x[0]", "xy": "x0", "z": "z?", "w": "w*", "y": "x[0-9]", "Q": "P[12]"},
     2: {"A": "*", "B": "A*", "P": "?", "PQ": "P?", "x": "[x]", "xy": "[!x]"},
+    # a peer that writes Latin-1 (what every transport of the library decodes): the bytes 0xA0-0xFF travel raw
+    3: {"A": "C\u00f4te", "B": "\u00c9tage", "AB": "C\u00f4te\u00e9", "P": "Temp\u00e9rature", "PQ": "Temp\u00e9rature\u00b0", "x": "\u00e9", "xy": "\u00e9\u00df", "z": "\u00f7", "hello": "gr\u00fc\u00df dich \u00a0"},
 }
 
 
@@ -178,7 +180,9 @@ def to_library(item):
     return IndiMessage.from_string(gen.render_foreign(item["spec"], item["choices"]))
 
 
-def to_wire(item) -> bytes:
+def to_wire(item, latin1=False) -> bytes:
+    if latin1:
+        return gen.render_foreign(item["spec"], item.get("choices") or [0], ascii_only=False).encode("latin1")
     if item.get("choices") is None:
         return gen.build(item["spec"]).to_string()
     return gen.render_foreign(item["spec"], item["choices"]).encode("ascii")
